@@ -28,19 +28,60 @@ def coq_check(prop):
 # a tree is [name, {attr: value}, [children]]
 
 
-def _build(t, sep):
+_SUB = {}
+
+
+def _node_class(cls):
+    from bigtree.node.binarynode import BinaryNode
     from bigtree.node.node import Node
 
-    def go(x, parent):
-        if parent is None:
-            n = Node(x[0], sep=sep, **x[1])
+    if cls == "BinaryNode":
+        return BinaryNode
+    if cls == "SubNode":
+        if "SubNode" not in _SUB:
+            class SubNode(Node):
+                """a user subclass of Node"""
+            _SUB["SubNode"] = SubNode
+        return _SUB["SubNode"]
+    return Node
+
+
+def _build(t, sep, cls="Node", slots=0):
+    """slots: bit i decides whether the i-th single child of a BinaryNode goes to the right slot"""
+    klass = _node_class(cls)
+    counter = [0]
+
+    def go(x):
+        kids = [go(k) for k in x[2]]
+        if cls == "BinaryNode":
+            if len(kids) == 1:
+                right = (slots >> (counter[0] % 16)) & 1
+                counter[0] += 1
+                kids = [None, kids[0]] if right else [kids[0], None]
+            n = klass(x[0], children=kids, **x[1]) if kids else klass(x[0], **x[1])
         else:
-            n = Node(x[0], parent=parent, **x[1])
-        for k in x[2]:
-            go(k, n)
+            n = klass(x[0], **x[1])
+            n.children = kids
         return n
 
-    return go(t, None)
+    root = go(t)
+    root.sep = sep
+    return root
+
+
+def _snapshot(root):
+    """everything the call must leave alone: node objects, names, attributes, child slots (not: sep)"""
+    out = []
+
+    def go(n, depth):
+        at = sorted((k, repr(v)) for k, v in n.__dict__.items() if k not in ("_sep",) and "__parent" not in k and "__children" not in k)
+        out.append((id(n), depth, n.node_name, tuple(at), tuple(None if c is None else id(c) for c in n.children)))
+        for c in n.children:
+            if c is not None:
+                go(c, depth + 1)
+
+    go(root, 0)
+    return out
 
 
 def _canon(v):
@@ -68,21 +109,36 @@ def _canon(v):
     raise TypeError(f"unexpected value {type(v)}")
 
 
-def run_impl(prop, case):
+def _call(case, a, b):
     from bigtree.tree.helper import get_tree_diff
 
-    a = _build(case["t1"], case["sep"])
-    b = _build(case["t2"], case.get("sep2", case["sep"]))
+    style = case.get("call", "kw")
+    od, al = case["only_diff"], list(case["attrs"])
+    if style == "omit" and od and not al:
+        return get_tree_diff(a, b)                       # both defaults
+    if style == "omit" and od:
+        return get_tree_diff(a, b, attr_list=al)
+    if style == "omit" and not al:
+        return get_tree_diff(a, b, only_diff=od)
+    if style == "pos":
+        return get_tree_diff(a, b, od, al)
+    return get_tree_diff(tree=a, other_tree=b, only_diff=od, attr_list=al)
+
+
+def _observe(case, a, b):
+    cls = case.get("cls", "Node")
     try:
-        r = get_tree_diff(a, b, only_diff=case["only_diff"], attr_list=list(case["attrs"]))
+        r = _call(case, a, b)
     except Exception as e:  # noqa
-        return {"err": exn_code(e)}
+        return {"err": exn_code(e)}, None
     if r is None:
-        return {"none": True}
+        return {"none": True}, None
     out = []
     for n in [r] + list(r.descendants):
         at = []
         for k, v in n.describe(exclude_prefix="_", exclude_attributes=["name"]):
+            if cls == "BinaryNode" and k == "val":
+                continue                                 # BinaryNode's own bookkeeping attribute
             if isinstance(v, tuple) and len(v) == 2:
                 at.append([k, _canon(v[0]), _canon(v[1])])
             else:
@@ -90,7 +146,33 @@ def run_impl(prop, case):
         at.sort(key=lambda e: e[0])
         out.append([n.path_name, at])
     out.sort(key=lambda e: json.dumps(e))
-    return {"tree": out}
+    return {"tree": out}, r
+
+
+def run_impl(prop, case):
+    cls = case.get("cls", "Node")
+    a = _build(case["t1"], case["sep"], cls, case.get("slots1", 0))
+    b = _build(case["t2"], case.get("sep2", case["sep"]), cls, case.get("slots2", 0))
+    sa, sb, sep_a = _snapshot(a), _snapshot(b), a.sep
+    obs, r = _observe(case, a, b)
+    why = []
+    if _snapshot(a) != sa or a.sep != sep_a:
+        why.append("tree was modified by the call")
+    if _snapshot(b) != sb or b.sep not in (case.get("sep2", case["sep"]), sep_a):
+        why.append("other_tree was modified by the call (beyond other_tree.sep = tree.sep)")
+    if r is not None:
+        if type(r) is not type(a):
+            why.append(f"result is a {type(r).__name__}, the inputs are {type(a).__name__}")
+        ids = {e[0] for e in sa} | {e[0] for e in sb}
+        if any(id(n) in ids for n in [r] + list(r.descendants)):
+            why.append("result shares node objects with the inputs")
+    obs2, _ = _observe(case, a, b)                       # calling twice on the same objects
+    if obs2 != obs:
+        why.append("a second call on the same trees returns something else")
+    obs["stable"] = not why
+    if why:
+        obs["why_unstable"] = why
+    return obs
 
 
 # ---------------------------------------------------------------------------------------------
@@ -125,7 +207,8 @@ def _cobs(obs):
 
 
 def emit(prop, case, obs):
-    return (f"DC {cstr(case['sep'])} {cstr(case.get('sep2', case['sep']))} {_ctree(case['t1'])} {_ctree(case['t2'])} {cbool(case['only_diff'])} "
+    return (f"DC {cbool(case.get('cls') == 'BinaryNode')} {cbool(obs.get('stable', True))} "
+            f"{cstr(case['sep'])} {cstr(case.get('sep2', case['sep']))} {_ctree(case['t1'])} {_ctree(case['t2'])} {cbool(case['only_diff'])} "
             f"{clist(cstr(a) for a in case['attrs'])} {_cobs(obs)}")
 
 
@@ -253,7 +336,7 @@ def gen_case(rng, pool_name=None, shape=None):
         pool = extra + pool[: max(2, len(pool) // 2)] if rng.random() < 0.8 else pool + extra[:2]
     shape = shape or rng.choice(SHAPES)
     density = rng.choice([0.0, 0.4, 0.8])
-    n = rng.randint(1, 9)
+    n = rng.choice([0, 1, 2, 3, 4, 5, 6, 7, 8, 9, 2, 3])
     root = rng.choice(["r", "r", rng.choice(pool)])
     t1 = gen_tree(rng, pool, shape, n, density, root)
     r = rng.random()
@@ -269,16 +352,53 @@ def gen_case(rng, pool_name=None, shape=None):
     if density == 0.0 and rng.random() < 0.7:
         al = []
     else:
-        k = rng.choice([0, 1, 1, 2, 2])
+        k = rng.choice([0, 1, 1, 2, 2, 3])
         al = rng.sample(ATTR_POOL, k)
     if rng.random() < 0.15:
         t1, t2 = t2, t1
-    return {"sep": "/", "sep2": sep2, "t1": t1, "t2": t2, "only_diff": rng.random() < 0.55, "attrs": al,
+    case = {"sep": "/", "sep2": sep2, "t1": t1, "t2": t2, "only_diff": rng.random() < 0.55, "attrs": al,
+            "cls": "Node", "call": rng.choice(["kw", "kw", "pos", "omit"]),
             "stratum": f"{pool_name}/{shape}" + ("" if sep2 == "/" else "/sep2")}
+    r = rng.random()
+    if r < 0.12:
+        case["cls"] = "SubNode"
+    elif r < 0.45 and _binary_ok(t1, t2):
+        # BinaryNode trees: at most two children per parent in the union of the two trees
+        # (more raise TreeError: reported, Example C15_binary_overflow_refuted)
+        case["cls"] = "BinaryNode"
+        case["slots1"] = rng.getrandbits(16)
+        case["slots2"] = rng.getrandbits(16)
+    if case["cls"] != "Node":
+        case["stratum"] += "/" + case["cls"]
+    return case
+
+
+def _union_children(t1, t2):
+    kids = {}
+    for t in (t1, t2):
+        def go(x, path):
+            for k in x[2]:
+                kids.setdefault(path, set()).add(k[0])
+                go(k, path + (k[0],))
+        go(t, (t[0],))
+    return kids
+
+
+def _binary_ok(t1, t2):
+    return t1[0] == t2[0] and all(len(v) <= 2 for v in _union_children(t1, t2).values())
 
 
 def _leaf(n, **at):
     return [n, dict(at), []]
+
+
+def _known():
+    import os
+    try:
+        return json.load(open(os.path.join(os.path.dirname(os.path.dirname(os.path.dirname(os.path.abspath(__file__)))),
+                                           "known_findings.json"))).get("entries", [])
+    except (OSError, ValueError):
+        return []
 
 
 def corpus(prop):
@@ -332,6 +452,33 @@ def corpus(prop):
     # names that already end in a marker (outside the guard of the predicate, model still compared)
     add("lookalike", ["r", {}, [_leaf("b"), _leaf("b (-)")]], ["r", {}, [_leaf("b (-)")]], False)
     add("lookalike", ["r", {}, [_leaf("b", x=1), _leaf("b (~)", x=1)]], ["r", {}, [_leaf("b", x=2), _leaf("b (~)", x=1)]], False, ["x"])
+    # falsy values against None / missing, on either side, at the root and below (only the listed ones count)
+    for od in (True, False):
+        for v in (0, "", -1):
+            add("falsy", ["r", {"x": None}, [_leaf("a", x=v), _leaf("b")]], ["r", {"x": v}, [_leaf("a"), _leaf("b", x=v)]], od, ["x"])
+        add("falsy", ["r", {"x": 0}, []], ["r", {}, []], od, ["x"])                      # one-node trees, root differs
+        add("falsy", ["r", {"x": 0}, []], ["r", {"x": 0}, []], od, ["x"])                # one-node trees, identical
+        add("one-node", ["r", {}, []], ["r", {}, []], od, [])
+        add("one-node", ["r", {}, []], ["r", {}, [_leaf("a")]], od, [])
+        add("root-attr", ["r", {"x": 1, "y": "s"}, [_leaf("a", x=1)]], ["r", {"x": 2, "y": "s"}, [_leaf("a", x=1)]], od, ["x", "y"])
+        # same name at the same depth under different parents, different status
+        add("same-name-depth", ["r", {}, [["p", {}, [_leaf("u"), _leaf("m")]], ["q", {}, [_leaf("u"), _leaf("m")]]]],
+            ["r", {}, [["p", {}, [_leaf("m")]], ["q", {}, [_leaf("u"), _leaf("m"), _leaf("n")]], ["s", {}, [_leaf("u")]]]], od)
+        add("three-attrs", ["r", {}, [_leaf("a", x=1, y=1, z=1), _leaf("b", x=1, y=1, z=1)]],
+            ["r", {}, [_leaf("a", x=2, y=1, z=3), _leaf("b", x=1, y=2, z=1)]], od, ["z", "y", "x"])
+    for c in out[-8:]:
+        c[1]["call"] = "pos"
+    # node classes
+    bt1 = ["r", {}, [["b", {"x": 1}, [_leaf("c")]], _leaf("d")]]
+    bt2 = ["r", {}, [["b", {"x": 2}, [_leaf("e")]]]]
+    for cls in ("BinaryNode", "SubNode"):
+        for od in (True, False):
+            add("class-" + cls, bt1, bt2, od, ["x"])
+            out[-1][1].update(cls=cls, slots1=5, slots2=2)
+    # BinaryNode: a third child in the union raises TreeError (reported; in the corpus once it is a recorded finding)
+    if any(e.get("id") == "K5-C15" for e in _known()):
+        add("K5-binary-overflow", ["r", {}, [_leaf("b"), _leaf("c")]], ["r", {}, [_leaf("d")]], True)
+        out[-1][1].update(cls="BinaryNode")
     # known finding K4-C15: the trees' separator is ignored when the result is rebuilt
     add("K4-sep", ["r", {}, [_leaf("b")]], ["r", {}, [_leaf("c")]], True, [], ".")
     add("K4-sep", ["r", {}, [_leaf("b", x=1)]], ["r", {}, [_leaf("b", x=2)]], False, ["x"], "|")
@@ -341,7 +488,7 @@ def corpus(prop):
 
 
 def generate(prop, rng, tier):
-    count = {"quick": 1500, "thorough": 24000, "search": 4500}[tier]
+    count = {"quick": 1300, "thorough": 24000, "search": 4500}[tier]
     for i in range(count):
         c = gen_case(rng)
         yield c["stratum"], c
@@ -463,18 +610,36 @@ def sample(prop, case, obs):
 
 
 def rule(prop):
-    return ("pairs (tree, edited copy): random trees (<= 10 nodes; shapes wide/deep/mixed/path/star; name pools distinct / "
-            "repeated / prefix-suffix related (b, bc, xa, ab) / special characters (. ( + ) [ * ? \\ space) / marker look-alikes) "
-            "edited by deleting, adding, renaming, moving subtrees and changing attributes (ints, strings, None); "
-            "attr_list of 0-2 of 3 attributes, only_diff on/off, tree.sep '/', other_tree.sep '/' or (45%) one of - . | \\ with names "
-            "of both trees containing that character; observation = multiset of (path_name, attribute pairs) of the "
-            "returned tree, None, or the exception class; non-trivial = a tree with >= 3 nodes of which at least one is marked")
+    return ("pairs (tree, edited copy): random trees (0-10 nodes incl. one-node trees; shapes wide/deep/mixed/path/star; name pools "
+            "distinct / repeated (same name at the same depth under different parents) / prefix-suffix related (b, bc, xa, ab) / "
+            "special characters (. ( + ) [ * ? \\ space) / marker look-alikes) edited by deleting, adding, renaming, moving subtrees "
+            "and changing attributes at any node incl. the root (ints incl. 0 and -1, strings incl. '', None, attribute missing on one side); "
+            "attr_list of 0-2 of 3 attributes (3 in the corpus, any order), only_diff on/off; arguments by keyword / positionally / "
+            "omitted (defaults); tree.sep '/', other_tree.sep '/' or (45%) one of - . | \\ with names of both trees containing that "
+            "character; node classes Node / a Node subclass / BinaryNode (single children in either slot; union of children <= 2 per parent). "
+            "Observation = multiset of (path_name, attribute pairs) of the returned tree, None, or the exception class, PLUS: both input "
+            "trees unchanged (objects, names, attributes, child slots; other_tree.sep may become tree.sep), result of the inputs' class "
+            "sharing no node object with them, a second call on the same objects returns the same. "
+            "non-trivial = a tree with >= 3 nodes of which at least one is marked")
 
 
 def matches_finding(prop, entry, case, obs, flags):
     # K4-C15: sep != "/" -> the result is rebuilt with "/" (TreeError, or one node named by the whole path);
     # the model predicts exactly that (no disagreement), only the property predicate is false
-    return entry.get("id") == "K4-C15" and case["sep"] != "/" and flags == 2 and ("err" in obs or "tree" in obs)
+    if entry.get("id") == "K4-C15":
+        return case["sep"] != "/" and flags == 2 and ("err" in obs or "tree" in obs)
+    # K5-C15: BinaryNode inputs whose union has a parent with more than two children -> TreeError, as the model predicts
+    if entry.get("id") == "K5-C15":
+        return (case.get("cls") == "BinaryNode" and flags == 2 and obs.get("err") == 7
+                and not _binary_ok(case["t1"], case["t2"]))
+    return False
+
+
+def explain(prop, case, obs, flags):
+    from ._base import explain as base
+    if isinstance(obs, dict) and obs.get("why_unstable"):
+        return "beside the returned tree the harness observed: " + "; ".join(obs["why_unstable"])
+    return base(prop, case, obs, flags)
 
 
 def trusted_base(prop):
@@ -487,8 +652,17 @@ def partial_clauses(prop):
             "all C15 theorems carry the guard lookalike_free: no name already ends in ' (-)', ' (+)' or ' (~)' "
             "(Example C15_lookalike_guard_needed shows the predicate is false without it); the correspondence check "
             "still compares model and implementation on such names but does not evaluate the predicate there",
-            "pandas' row order of the outer join is not modelled: model and implementation are compared as multisets of "
-            "(path_name, attributes); sibling order of the returned tree is outside the property"]
+            "BinaryNode inputs: a parent with more than two children in the union of the two trees makes the call raise TreeError "
+            "(Example C15_binary_overflow_refuted, reported); the generator keeps BinaryNode pairs below that bound",
+            "accepted blind spots of the correspondence: (1) sibling order of the returned tree and pandas' row order (compared as a "
+            "multiset, outside the property); (2) attribute values of the result are folded NaN/NA -> None and integral float -> int "
+            "(pandas turns an int column holding a missing value into floats), values are only ints, strings and None - bool and "
+            "non-integral float values and Python's cross-type equality (0 == 0.0 == False) are not exercised; (3) BinaryNode's own "
+            "`val` attribute on result nodes is ignored; (4) exceptions are compared by class only; (5) start nodes that are not roots, "
+            "multi-character separators, tree.sep != '/' beyond the K4-C15 witnesses, empty or non-string names, names containing '/', "
+            "attribute names that collide with Node properties (name, depth, sep ...), repeated entries or non-list containers in "
+            "attr_list, trees with different root names are never generated (outside domain_C15: 0 cases skipped per run); "
+            "(6) the value other_tree.sep has after the call is not constrained (old value or tree.sep both accepted)"]
 
 
 def assumptions(prop):
